@@ -1,5 +1,7 @@
 package gen
 
+import "fmt"
+
 // unnamedEntry: modules with unnamed globals/functions/locals (each alone in its module).
 func unnamedEntry() Entry {
 	return Entry{Name: "unnamed", Build: func(f *Frag) {
@@ -41,9 +43,72 @@ func unnamedEntry() Entry {
 }
 
 // RefEntries: reference topologies (forward, mutual, cyclic, cross-function) for C04/C05/C12.
+// nameShapesEntry: one NAME, spelled in each lexical shape (plain, all digits, leading zeros,
+// signed number, spaces, enclosed in quote characters, leading digit), carried by each kind of named
+// entity together with the references that must find it again (same-named comdats in the bare and
+// the explicit spelling, uses of locals, type uses, callee and address uses, aliases).
+func nameShapesEntry() Entry {
+	return Entry{Name: "name-shapes", Build: func(f *Frag) {
+		u := f.MDID() // a number unique in the module
+		var n string  // the spelling after the sigil
+		switch f.N("shape", 8) {
+		case 0:
+			n = f.P + "n"
+		case 1:
+			n = fmt.Sprintf(`"%d"`, u)
+		case 2:
+			n = fmt.Sprintf(`"00%d"`, u)
+		case 3:
+			n = fmt.Sprintf(`"-%d"`, u)
+		case 4:
+			n = fmt.Sprintf(`"%s a b"`, f.P)
+		case 5:
+			n = fmt.Sprintf(`"\22%s\22"`, f.P)
+		case 6:
+			n = fmt.Sprintf(`"%d%s"`, u%10, f.P)
+		case 7:
+			n = fmt.Sprintf(`"+%d"`, u)
+		}
+		switch f.N("entity", 10) {
+		case 0: // global in the same-named comdat, bare spelling
+			f.TopLine("$%s = comdat any", n)
+			f.TopLine("@%s = global i32 0, comdat", n)
+		case 1: // explicit spelling
+			f.TopLine("$%s = comdat any", n)
+			f.TopLine("@%s = global i32 0, comdat($%s)", n, n)
+		case 2: // function in the same-named comdat, bare
+			f.TopLine("$%s = comdat any", n)
+			f.TopLine("define void @%s() comdat {\n  ret void\n}", n)
+		case 3: // function, explicit
+			f.TopLine("$%s = comdat any", n)
+			f.TopLine("define void @%s() comdat($%s) {\n  ret void\n}", n, n)
+		case 4: // parameter and its use
+			f.TopLine("define i32 @%sf(i32 %%%s) {\n  ret i32 %%%s\n}", f.P, n, n)
+		case 5: // instruction result and label carrying the name itself
+			f.TopLine("define i32 @%sf(i32 %%x) {\n  br label %%%s\n%s:\n  %%v = add i32 %%x, 1\n  ret i32 %%v\n}", f.P, n, n)
+			f.TopLine("define i32 @%sg(i32 %%x) {\n  %%%s = add i32 %%x, 1\n  ret i32 %%%s\n}", f.P, n, n)
+		case 6: // type name and its use
+			f.TopLine("%%%s = type { i32, %%%s* }", n, n)
+			f.TopLine("@%sg = global %%%s zeroinitializer", f.P, n)
+		case 7: // global used by address
+			f.TopLine("@%s = global i32 3", n)
+			f.TopLine("@%sp = global i32* @%s", f.P, n)
+		case 8: // alias and ifunc
+			f.TopLine("@%sbase = global i32 3", f.P)
+			f.TopLine("@%s = alias i32, i32* @%sbase", n, f.P)
+			f.TopLine("@%sq = global i32* @%s", f.P, n)
+		case 9: // function used as callee before and after its definition
+			f.TopLine("define void @%sc1() {\n  call void @%s()\n  ret void\n}", f.P, n)
+			f.TopLine("define void @%s() {\n  ret void\n}", n)
+			f.TopLine("define void @%sc2() {\n  call void @%s()\n  ret void\n}", f.P, n)
+		}
+	}}
+}
+
 func RefEntries() []Entry {
 	return []Entry{
 		unnamedEntry(),
+		nameShapesEntry(),
 		{Name: "ref-patterns", Build: func(f *Frag) {
 			p := f.P
 			switch f.N("form", 16) {
